@@ -10,7 +10,7 @@ COQ_CASE_TYPE = "M_Rel.case"
 COQ_CHECK = "M_Rel.check_case"
 OBLIGATIONS = ["find_arg_optimal_spec", "find_optimal_spec", "optimal_cost_value_spec",
                "projection_spec", "dsa_moves_within_best", "dsatuto_moves_within_best"]
-N_QUICK, N_THOROUGH = 600, 12000
+N_QUICK, N_THOROUGH = 600, 6000
 SHARD = 150
 RULE = ("seeded random variables (domains of 1-3 distinct integer values; plain, cost-dict and "
         "cost-function variables) and matrix constraints with small, tie-heavy, 2^31-boundary, "
